@@ -182,7 +182,9 @@ static void c05_fail_probe(World *w, Buf *b, Buf *last) {
         /* the mutated command succeeded: it is simply another command of the history; resync the client view */
         tr("f cc=%x kind=%d rc=0", cc, kind);
         if (cc == CC_FlushContext || cc == CC_ContextLoad || cc == CC_ContextSave || cc == CC_NV_UndefineSpace || cc == CC_NV_DefineSpace || cc == CC_EvictControl ||
-            cc == CC_HierarchyChangeAuth || cc == CC_CreatePrimary || cc == CC_StartAuthSession || cc == CC_SequenceComplete || cc == CC_EventSequenceComplete || cc == CC_HashSequenceStart || cc == CC_HMAC_Start)
+            cc == CC_HierarchyChangeAuth || cc == CC_CreatePrimary || cc == CC_StartAuthSession || cc == CC_SequenceComplete || cc == CC_EventSequenceComplete || cc == CC_HashSequenceStart || cc == CC_HMAC_Start ||
+            cc == CC_SetCommandCodeAuditStatus /* an altered list may put the commands of the fingerprint battery under audit: the battery would no longer be free of effects */ ||
+            cc == 0x12D /* PP_Commands */ || cc == CC_HierarchyControl || cc == CC_Clear || cc == CC_ChangeEPS || cc == CC_ChangePPS || cc == CC_SetPrimaryPolicy)
             w->ops = -1;   /* signal: client view may be stale */
     }
     c02_world_free(&wc); blob_clear(&img0); blob_clear(&img1); blob_clear(&st0); b_free(&m);
@@ -213,7 +215,12 @@ static void c05_twin_fail(World *w, Buf *b, const uint8_t *cmd, uint32_t n, cons
 /* failing commands that byte mutation rarely produces */
 static void c05_semantic_fail(World *w, Buf *b) {
     Buf c = {0};
-    switch (rnd(5)) {
+    switch (rnd(7)) {
+    case 5: case 6: { /* an ORDERLY index that NV has room for but the orderly RAM has not: refused with nothing left behind */
+        uint32_t idx = 0x01400040u + rnd(8); uint16_t size = chance(50) ? 1024 : (uint16_t)(500 + rnd(300));
+        cmd_begin(&c, ST_SESSIONS, CC_NV_DefineSpace); b_u32(&c, RH_OWNER); auth_pw_s(&c, w->ownerAuth);
+        b_u16(&c, 0); b_u16(&c, 14); b_u32(&c, idx); b_u16(&c, ALG_SHA256); b_u32(&c, (1u << 2) | (1u << 18) | (1u << 1) | (1u << 17) | (1u << 25) | (1u << 26)); b_u16(&c, 0); b_u16(&c, size);
+        b_put32(&c, 2, (uint32_t)c.n); c05_twin_fail(w, b, c.p, (uint32_t)c.n, "nv-define-orderly-ram-full"); break; }
     case 0: { /* PolicyPCR with a wrong digest on a fresh, real (non-trial) policy session */
         while (w->nsess >= 3) op_flush_session(w, b);
         { uint8_t nonce[16] = {0};
